@@ -349,7 +349,7 @@ pub fn record(runs: usize, path: &str) {
 /// are logged.  TLC judges the ones JetLib specifies.
 pub fn record_jets(per_jet: usize, path: &str) {
     use simplicity::jet::{Core, CoreEnv, Jet};
-    use simplicity::node::JetConstructible;
+    use simplicity::node::CoreConstructible;
     use simplicity::types::Final;
     fn flat(t: &Final) -> bool {
         if t.is_unit() || t.as_word().is_some() { return true; }
